@@ -179,6 +179,9 @@ class Registry:
             if isinstance(node, ast.Constant) and isinstance(node.value, (str, int, bool)):
                 c = node.value
                 return vstr(c) if isinstance(c, str) else vbool(c) if isinstance(c, bool) else vint(c)
+            if isinstance(node, ast.Tuple) and node.elts and all(isinstance(e, ast.Constant) and isinstance(e.value, str) for e in node.elts):
+                # a module-level tuple of string literals (e.g. DEFAULT_EXCLUSIONS): a concrete tuple
+                return V(("tuple", tuple(("str",) for _ in node.elts)), tuple(vstr(e.value) for e in node.elts))
         if name in ("True", "False"):
             return vbool(name == "True")
         if modctx is not None and (name in modctx.classes or (name in modctx.imports and name[:1].isupper())):
